@@ -440,11 +440,63 @@ def run(ctx):
             if len(v) > 1: v.pop(0)
 
     FALSY = [[], {}, 0, 0.0, False, '', [[]], [{}], {'': ''}, [0], [False], [None], {'a': []}]
+
+    # how the media handlers of the two apps are constructed: every documented constructor option, str- and bytes-returning
+    # dumps functions, do-nothing subclasses (they switch the internal fast paths off), and subclasses that override only the
+    # sync or only the async half (the override must be what runs on its stack)
+    def make_media_handler(fmt, variant, calls):
+        if fmt == 'json':
+            kw = {}
+            if variant in ('explicit', 'sub_explicit'):
+                kw = {'dumps': json.dumps, 'loads': json.loads}
+            elif variant in ('bytes_dumps', 'sub_bytes_dumps'):
+                kw = {'dumps': lambda o: json.dumps(o).encode('utf-8'), 'loads': json.loads}      # an orjson-style dumps
+            elif variant == 'compact':
+                kw = {'dumps': lambda o: json.dumps(o, separators=(',', ':'), ensure_ascii=False)}
+            base = media.JSONHandler
+        else:
+            kw = {'keep_blank': True, 'csv': variant in ('csv', 'sub_csv')}
+            if variant == 'defaults':
+                kw = {}
+            base = media.URLEncodedFormHandler
+        if variant.startswith('sub_') or variant in ('sub', 'async_only', 'sync_only'):
+            ns = {}
+            if variant == 'async_only':
+                async def deserialize_async(self, stream, content_type, content_length):
+                    calls.append('deserialize_async'); return await base.deserialize_async(self, stream, content_type, content_length)
+
+                async def serialize_async(self, m, content_type=None):
+                    calls.append('serialize_async'); return await base.serialize_async(self, m, content_type)
+                ns = {'deserialize_async': deserialize_async, 'serialize_async': serialize_async}
+            elif variant == 'sync_only':
+                def deserialize(self, stream, content_type, content_length):
+                    calls.append('deserialize'); return base.deserialize(self, stream, content_type, content_length)
+
+                def serialize(self, m, content_type=None):
+                    calls.append('serialize'); return base.serialize(self, m, content_type)
+                ns = {'deserialize': deserialize, 'serialize': serialize}
+            return type('My' + base.__name__, (base,), ns)(**kw)
+        return base(**kw)
+    JSON_VARIANTS = ['stock', 'stock', 'explicit', 'bytes_dumps', 'compact', 'sub', 'sub_explicit', 'sub_bytes_dumps', 'async_only', 'sync_only']
+    FORM_VARIANTS = ['defaults', 'blank', 'csv', 'sub', 'sub_csv', 'async_only', 'sync_only']
+    FORM_T = 'application/x-www-form-urlencoded'
     name_b2 = 'full-stack round trip: the document a responder serves is the document a responder receives, for every app construction, request after request (nothing shared between requests)'
     for ci in range(ctx.n(250, 4000)):
-        doc = copy.deepcopy(rnd.choice(FALSY)) if rnd.random() < 0.4 else gen_doc()
-        if doc is None:
-            doc = [None]
+        fmt = 'form' if rnd.random() < 0.3 else 'json'
+        if fmt == 'form':
+            doc = {}
+            for _ in range(rnd.randint(0, 4)):
+                k = ''.join(rnd.choice('ab &=+%,\xe9') for _ in range(rnd.randint(1, 4)))
+                v = ''.join(rnd.choice('xy &=+%,;\xe9€') for _ in range(rnd.randint(1, 6)))
+                doc[k] = v if rnd.random() < 0.7 else [v, ''.join(rnd.choice('pq, &%') for _ in range(rnd.randint(1, 4)))]
+        else:
+            doc = copy.deepcopy(rnd.choice(FALSY)) if rnd.random() < 0.4 else gen_doc()
+            if doc is None:
+                doc = [None]
+        h_out, h_in = (rnd.choice(FORM_VARIANTS if fmt == 'form' else JSON_VARIANTS) for _ in range(2))
+        if fmt == 'form' and (('csv' in h_out) != ('csv' in h_in)):
+            h_in = h_out            # (a comma-split reading of a form written without comma splitting is a different document)
+        hcalls_out, hcalls_in = [], []
         s_out, s_in = rnd.choice(['wsgi', 'asgi']), rnd.choice(['wsgi', 'asgi'])
         c_out, c_in = rnd.choice(['plain', 'plain', 'resp', 'req', 'both', 'alias']), rnd.choice(['plain', 'plain', 'resp', 'req', 'both', 'alias'])
         served = copy.deepcopy(doc)
@@ -464,18 +516,32 @@ def run(ctx):
                 async def on_post(self, req, resp):
                     v = await req.get_media(); seen_docs.append(copy.deepcopy(v)); mutate(v); resp.media = {'ok': True}
         failed = None
-        case = {'document': doc, 'serving_app': f'{s_out}/{c_out}', 'receiving_app': f'{s_in}/{c_in}'}
+        case = {'document': doc, 'format': fmt, 'serving_app': f'{s_out}/{c_out}', 'receiving_app': f'{s_in}/{c_in}',
+                'serving_handler': h_out, 'receiving_handler': h_in}
+        ctype_b2 = FORM_T if fmt == 'form' else 'application/json'
         try:
             a_out = build(s_out, c_out); a_out.add_route('/', G())
             a_in = build(s_in, c_in); a_in.add_route('/', P())
+            if fmt == 'form':
+                a_out.resp_options.default_media_type = FORM_T
+            if not (fmt == 'json' and h_out == 'stock'):
+                a_out.resp_options.media_handlers[ctype_b2] = make_media_handler(fmt, h_out, hcalls_out)
+            if not (fmt == 'json' and h_in == 'stock'):
+                a_in.req_options.media_handlers[ctype_b2] = make_media_handler(fmt, h_in, hcalls_in)
             st, hd, body = serve(s_out, a_out, 'GET')
             if st != 200: failed = f'serving the document answered {st}'
             elif hd.get('content-length') not in (None, str(len(body))): failed = f'Content-Length {hd.get("content-length")} for {len(body)} bytes'
-            else:
+            elif fmt == 'json':
                 try:
                     if not eq_doc(json.loads(body.decode('utf-8')), doc): failed = f'the body sent {body[:60]!r} is not the document'
                 except Exception as e:  # noqa
                     failed = f'the body sent {body[:60]!r} does not decode: {type(e).__name__}'
+            # a handler that overrides one half must have that half run on its stack (sync on WSGI, async on ASGI)
+            # (form handler only: JSONHandler installs its (de)serializers as instance attributes in __init__, which shadow methods a
+            #  subclass defines - documented customisation of JSON goes through dumps= / loads=; not part of this property)
+            want_out = {('async_only', 'asgi'): 'serialize_async', ('sync_only', 'wsgi'): 'serialize'}.get((h_out, s_out)) if fmt == 'form' else None
+            if failed is None and want_out and hcalls_out.count(want_out) != 1:
+                failed = f'the serving handler overrides {want_out}() but it ran {hcalls_out.count(want_out)} times (calls: {hcalls_out})'
             if failed is None:
                 n_posts = rnd.choice([2, 2, 3])
                 for k in range(n_posts):
@@ -490,6 +556,8 @@ def run(ctx):
                             class P2:
                                 async def on_post(self, req, resp): seen_docs.append(copy.deepcopy(await req.get_media()))
                         a2.add_route('/', P2())
+                        if not (fmt == 'json' and h_in == 'stock'):
+                            a2.req_options.media_handlers[ctype_b2] = make_media_handler(fmt, h_in, [])
                         stp, _, _ = serve(other, a2, 'POST', hd.get('content-type', 'application/json'), body)
                     else:
                         stp, _, _ = serve(s_in, a_in, 'POST', hd.get('content-type', 'application/json'), body)
@@ -497,8 +565,12 @@ def run(ctx):
                     if len(seen_docs) != k + 1: failed = f'request #{k + 1}: the responder did not get a document'; break
                     if not eq_doc(seen_docs[k], doc):
                         failed = f'request #{k + 1} received {seen_docs[k]!r}' + (' (the document as changed by the responder of an earlier request)' if k else ''); break
+            want_in = {('async_only', 'asgi'): 'deserialize_async', ('sync_only', 'wsgi'): 'deserialize'}.get((h_in, s_in)) if fmt == 'form' else None
+            if failed is None and want_in and hcalls_in.count(want_in) < 1:
+                failed = f'the receiving handler overrides {want_in}() but it never ran (calls: {hcalls_in})'
         except Exception as e:  # noqa
             failed = f'{type(e).__name__}: {e}'
+        ctx.count(f'fullstack_{fmt}_handler_' + h_out)
         ctx.oracle(name_b2, failed is None, failed, case)
         ctx.seen(('b2', repr(doc), s_out, c_out, s_in, c_in), True)
         ctx.count('fullstack_roundtrip_' + ('falsy' if not doc else 'doc'))
